@@ -96,6 +96,18 @@ theorem run_def (fuel k : Nat) (s : PState) (p : Prog) (est : Stack Prog) (hp : 
   simp only [hp]
   cases Impl.perform p { s with exec := est } <;> rfl
 
+/-- A block on top of the exec stack costs one step and is replaced by its elements, first element
+    on top: the interpreter then continues exactly as if the elements had been written in place of the
+    block ("blocks unfold in order"). -/
+theorem block_step (fuel k : Nat) (s : PState) (ps : List Prog) (est : Stack Prog) (h : SizesOk s)
+    (hp : s.exec.pop = .ok (.block ps, est)) (hroom : ps.length + est.size ≤ est.max) :
+    ∃ s', Impl.runLoop (fuel + 1) k s = Impl.runLoop fuel (k + 1) s' ∧
+      s'.exec.tops = ps ++ est.tops ∧ s'.int = s.int ∧ s'.float = s.float ∧ s'.bool = s.bool ∧ s'.out = s.out := by
+  have hs : SizesOk { s with exec := est } := sizesOk_pop s _ est h hp
+  obtain ⟨s', hperf, he, hi, hf, hb, ho⟩ := block_unfold ps { s with exec := est } hs hroom
+  refine ⟨s', ?_, he, hi, hf, hb, ho⟩
+  rw [run_def fuel k s _ est hp, hperf]
+
 /-! ### "In particular": the result functions of the table -/
 
 theorem i64_bounds (x : Int64) : I64.minVal ≤ x.toInt ∧ x.toInt ≤ I64.maxVal := by
@@ -294,6 +306,43 @@ theorem intPred2_ok (f : Int64 → Int64 → Bool) (s : PState) (h : SizesOk s)
   have hb : (s.bool.tops).length < s.bool.max := by simpa [Stack.tops, Stack.size] using hroom
   simp [Spec.apply, Spec.sIntPred2, Spec.takeN, Spec.tops, ht, Spec.noRoom, Spec.withTops, Uec.Nat.not_lt2]
   rw [if_neg (by omega), if_neg (by omega)]
+
+/-- float division by ±0 yields 1.0 (whatever the dividend, NaN and infinities included) -/
+theorem float_div_by_zero (x y : UInt64) (h : (Float.ofBits y == (0.0 : Float)) = true) :
+    F64.pdiv x y = F64.canon 1.0 := by simp [F64.pdiv, h]
+
+/-- the boolean connectives and the conversions, as the table has them (first operand = top) -/
+theorem bool_table :
+    Spec.sigBool .not = some (Spec.sBool1 fun x => !x) ∧
+    Spec.sigBool .and = some (Spec.sBool2 fun x y => x && y) ∧
+    Spec.sigBool .or = some (Spec.sBool2 fun x y => x || y) ∧
+    Spec.sigBool .xor = some (Spec.sBool2 fun x y => x != y) ∧
+    Spec.sigBool .implies = some (Spec.sBool2 fun x y => !x || y) :=
+  ⟨rfl, rfl, rfl, rfl, rfl⟩
+
+/-- min / max / clamp never fault and stay within their operands -/
+theorem clamp_between (v lo hi : Int64) :
+    let r := Impl.clampF v lo hi
+    (r = v ∨ r = lo ∨ r = hi) ∧ (lo ≤ hi → lo ≤ r ∧ r ≤ hi) := by
+  simp only [Impl.clampF]
+  by_cases h : lo > hi
+  · simp only [h, if_true]
+    refine ⟨?_, fun hle => absurd hle (by simpa [Int64.not_le] using h)⟩
+    split <;> (try split) <;> simp
+  · simp only [h, if_false]
+    have hle : lo ≤ hi := by simpa [Int64.not_lt] using h
+    refine ⟨by split <;> (try split) <;> simp, fun _ => ?_⟩
+    rw [Int64.le_iff_toInt_le] at hle
+    split
+    · rename_i h1; exact ⟨Int64.le_refl _, hle |> fun h => by rwa [← Int64.le_iff_toInt_le] at h⟩
+    · rename_i h1
+      split
+      · rename_i h2
+        exact ⟨by rwa [← Int64.le_iff_toInt_le] at hle, Int64.le_refl _⟩
+      · rename_i h2
+        constructor
+        · simpa [Int64.not_lt] using h1
+        · simpa [Int64.not_lt] using h2
 
 /-- the float comparisons are those of `OrderedFloat`'s order, all derived from one `ge` -/
 theorem float_comparisons (a b : UInt64) :
